@@ -40,7 +40,8 @@ def shape_root(node, inp):
 
 
 def unshaped(node, inp):
-    """The derivation itself as a tree: every rule a node (no inlining, no ?-collapse, aliases ignored), every token kept."""
+    """The derivation itself as a tree: every rule a node (no inlining, no ?-collapse; a node is named by its alternative's alias,
+    else by its rule, as the forest transformers name their callbacks), every token kept."""
     kind = node[0]
     if kind == 't':
         _, term, kept, typed, i0, j = node
@@ -48,7 +49,7 @@ def unshaped(node, inp):
     if kind == 'none':
         return None
     _, alt, children, i, j = node
-    return (alt.rule.name,) + tuple(unshaped(c, inp) for c in children if c[0] != 'none')
+    return (alt.alias or alt.rule.name,) + tuple(unshaped(c, inp) for c in children if c[0] != 'none')
 
 
 def of_lark(t):
@@ -130,3 +131,18 @@ def shape_spans(node, inp):
     if rule.expand1 and not alt.alias and len(kids) == 1:
         return [kids[0]]
     return [_node(alt.alias or rule.name, yield_span(node), kids)]
+
+
+def expand_ambig(t):
+    """All unambiguous trees encoded by a lark tree with _ambig nodes (each _ambig replaced by one of its alternatives)."""
+    from lark import Tree
+    import itertools
+    if not isinstance(t, Tree):
+        return [t]
+    if t.data == '_ambig':
+        out = []
+        for c in t.children:
+            out.extend(expand_ambig(c))
+        return out
+    lists = [expand_ambig(c) for c in t.children]
+    return [Tree(t.data, list(kids)) for kids in itertools.product(*lists)]
